@@ -21,6 +21,8 @@ func init() {
 			ruleC06R3(r, le)
 			ruleC06R4(r)
 			ruleC06R5(r)
+			ruleNoSwallowedErrors(r, "R7", 20, true, "/wire")
+			ruleC06R8(r)
 			ruleLockPairingFor(r, le, "R6", "lock pairing in the correlation paths: every function that touches the reply table releases ClientConn.mu on every path (the not-found edge of the router included)", func(fn *ssa.Function) bool {
 				for _, a := range collectAccesses(fn) {
 					if fieldKey(a.Owner, a.Field) == "/wire.ClientConn.replyCh" {
@@ -409,4 +411,43 @@ func ruleLockPairingFor(r *Run, le *LockEngine, id, text string, pick func(*ssa.
 // isLocalCtor: the function only touches the field on an object it allocates itself.
 func isLocalCtor(fn *ssa.Function) bool {
 	return fn.Signature.Recv() == nil && fn.Parent() == nil && strings.HasPrefix(fn.Name(), "Connect")
+}
+
+// ruleC06R8: the demultiplexer of the reliable transport hands every decoded message to the goroutine that owns its
+// kind. A response dropped here leaves its caller waiting although the broker answered: the hand-over must block
+// (back-pressure) and must not be a select with a default branch.
+func ruleC06R8(r *Run) {
+	r.Begin("R8", "the reliable demultiplexer never drops: every channel send in (*ClientConn).readReliableLoop is a plain blocking send or a blocking select (no default branch)", 5)
+	p := r.P
+	fn := r.method("/wire", "ClientConn", "readReliableLoop")
+	if fn == nil {
+		return
+	}
+	k := 0
+	withAnon(fn, func(f *ssa.Function) {
+		allInstrs(f, func(ins ssa.Instruction) {
+			name := fnName(f)
+			switch x := ins.(type) {
+			case *ssa.Send:
+				k++
+				r.Check(fmt.Sprintf("%s send#%d on %s", name, k, chanField(p, x.Chan)), true, posOf(p, ins), name, "plain blocking send")
+			case *ssa.Select:
+				for _, st := range x.States {
+					if st.Dir == types.SendOnly {
+						k++
+						r.Check(fmt.Sprintf("%s send#%d on %s", name, k, chanField(p, st.Chan)), x.Blocking, posOf(p, ins), name, "a send in a select with a default branch drops the message when the receiver is momentarily behind; for responses this leaves the caller without its answer")
+					}
+				}
+			}
+		})
+	})
+}
+
+func chanField(p *Prog, ch ssa.Value) string {
+	for _, l := range p.Leaves(ch, provOpts{}) {
+		if strings.HasPrefix(l, "field:") {
+			return l[strings.LastIndexByte(l, '.')+1:]
+		}
+	}
+	return "?"
 }
